@@ -1196,3 +1196,117 @@ func mentionsCallLog(x Expr) bool {
 	}
 	return false
 }
+
+// ---------- call log across loop cuts ----------
+
+// logHeapsOf lists the call-log heaps (called_F, callarg_F_p, callret_F_i, callsum_F_*) that a call with this
+// signature writes, with their sorts.
+func (e *Engine) logHeapsOf(cs calleeSig) map[string]string {
+	out := map[string]string{}
+	name := cs.Name()
+	out["called_"+mangle(name)] = "Bool"
+	for i, pn := range cs.pnames {
+		if i >= len(cs.ptypes) {
+			break
+		}
+		srt := e.vc.sortOf(cs.ptypes[i])
+		if srt == "GoTuple" {
+			continue
+		}
+		out["callarg_"+mangle(name)+"_"+mangle(pn)] = srt
+		switch kindOf(cs.ptypes[i]) {
+		case kInt, kMathInt, kDec:
+			out["callsum_"+mangle(name)+"_"+mangle(pn)] = "Int"
+		}
+	}
+	for i, t := range resultTypes(cs.sig) {
+		srt := e.vc.sortOf(t)
+		if srt == "GoTuple" {
+			continue
+		}
+		out[fmt.Sprintf("callret_%s_%d", mangle(name), i)] = srt
+		switch kindOf(t) {
+		case kInt, kMathInt, kDec:
+			out[fmt.Sprintf("callsum_%s_ret%d", mangle(name), i)] = "Int"
+		}
+	}
+	return out
+}
+
+// loopLogHeaps: the call-log heaps that executing the given blocks of fn may write: one group per layer function
+// called there, through inlined callees and closures as well. The call log is ghost state like any other: at a loop
+// cut (and at the arbitrary point of a callback iteration) it is unknown.
+func (fr *Frame) loopLogHeaps(fn *ssa.Function, blocks map[int]bool, depth int, out map[string]string, seen map[*ssa.Function]bool) {
+	e := fr.e
+	if depth > 6 || fn == nil {
+		return
+	}
+	for _, b := range fn.Blocks {
+		if blocks != nil && !blocks[b.Index] {
+			continue
+		}
+		for _, in := range b.Instrs {
+			if mc, ok := in.(*ssa.MakeClosure); ok {
+				if cf, ok := mc.Fn.(*ssa.Function); ok && !seen[cf] {
+					seen[cf] = true
+					fr.loopLogHeaps(cf, nil, depth+1, out, seen)
+				}
+				continue
+			}
+			ci, ok := in.(ssa.CallInstruction)
+			if !ok {
+				continue
+			}
+			cc := ci.Common()
+			if cc.IsInvoke() {
+				np := namedPath(types.Unalias(cc.Value.Type()))
+				if strings.HasPrefix(np, modPath+"/") {
+					for k, v := range e.logHeapsOf(sigOfMethod(cc)) {
+						out[k] = v
+					}
+					if target := e.bindInvoke(cc); target != nil {
+						for k, v := range e.logHeapsOf(sigOfFunc(target)) {
+							out[k] = v
+						}
+						if c := e.prog.Contracts[funcKey(target)]; (c == nil || c.Uses["inline_at_calls"]) && !seen[target] {
+							seen[target] = true
+							fr.loopLogHeaps(target, nil, depth+1, out, seen)
+						}
+					}
+				}
+				continue
+			}
+			callee := cc.StaticCallee()
+			if callee == nil {
+				continue
+			}
+			if !strings.HasPrefix(fnPkgPath(callee), modPath) {
+				continue
+			}
+			for k, v := range e.logHeapsOf(sigOfFunc(callee)) {
+				out[k] = v
+			}
+			if c := e.prog.Contracts[funcKey(callee)]; (c == nil || c.Uses["inline_at_calls"]) && len(callee.Blocks) > 0 && !seen[callee] {
+				seen[callee] = true
+				fr.loopLogHeaps(callee, nil, depth+1, out, seen)
+			}
+		}
+	}
+}
+
+// havocLogHeaps gives every listed call-log heap an unknown value in st.
+func (e *Engine) havocLogHeaps(st *State, hs map[string]string) {
+	var names []string
+	for n := range hs {
+		names = append(names, n)
+	}
+	sort.Strings(names)
+	for _, n := range names {
+		srt := hs[n]
+		if prev, ok := e.heapSorts[n]; ok && prev != srt {
+			continue // sort clash between two functions of one name: the log keeps the first (see logCallSig)
+		}
+		e.initHeap(n, srt)
+		st.heaps[n] = e.vc.fresh(n, srt)
+	}
+}
